@@ -318,6 +318,23 @@ def enum_sequences(universe, L):
     return out
 
 
+def reverse_lines(A):
+    """the reversal of a full zigzag given as op lines with unique keys"""
+    info, B = {}, []
+    for l in A:
+        w = l.split()
+        if w[0] == "I":
+            info[w[1]] = (w[2], w[4:])
+    for l in reversed(A):
+        w = l.split()
+        if w[0] == "I":
+            B.append("R %s 0" % w[1])
+        elif w[0] == "R":
+            d, bd = info[w[1]]
+            B.append("I %s %s 0" % (w[1], d) + "".join(" " + b for b in bd))
+    return B
+
+
 def fmt_ops(ops):
     out = []
     for o in ops:
@@ -600,17 +617,20 @@ def check(ctx, replay=None):
         res.count("column:" + c, len(lines))
 
     # metamorphic: reversal (C++ against itself, no oracle)
-    if not replay:
-        raws = [s for s in seqs if s.get("raw")]
-        pick = raws[: (2000 if ctx.tier == "thorough" else 300)]
+    if not replay or "reversal" in replay.get("kind", ""):
         rl, rmeta = [], []
-        for s in pick:
-            A, B = closure_and_reverse(rng, s["raw"])
-            if not A:
-                continue
-            rl.append(case_line("Z", -1, 0, fmt_ops(A)))
-            rl.append(case_line("Z", -1, 0, fmt_ops(B)))
-            rmeta.append((s, fmt_ops(A), fmt_ops(B)))
+        if replay:
+            A = [l for l in replay["case"]["ops"] if l != "N"]
+            rmeta.append((seqs[0], A, reverse_lines(A)))
+        else:
+            raws = [s for s in seqs if s.get("raw")]
+            for s in raws[: (2000 if ctx.tier == "thorough" else 300)]:
+                A, B = closure_and_reverse(rng, s["raw"])
+                if A:
+                    rmeta.append((s, fmt_ops(A), fmt_ops(B)))
+        for (_, A, B) in rmeta:
+            rl.append(case_line("Z", -1, 0, A))
+            rl.append(case_line("Z", -1, 0, B))
         for c in cols[:: (1 if ctx.tier == "thorough" else 2)]:
             ans = run_lines(bins[c], rl)
             for j, (s, A, B) in enumerate(rmeta):
